@@ -13,7 +13,7 @@ Every definition names the Rust function it mirrors. Conventions:
   (`Props.lean`) and is only needed where widening replaces a bound by `u32::MAX`.
 * a panic of the Rust code (`unwrap_value` on `Top`, indexing an empty `Vec`) ↦ `Res.panic`
   / `none`.
-* The model is of the REPAIRED code (/repo commits 5c94256 and 9b51435): step 4 of `normalize`
+* The model is of the REPAIRED code (/repo commits 87b4132 and 3ba7dd6): step 4 of `normalize`
   merges two bricks with equal content only if both minima are 0 and the sum of the maxima
   fits into `u32`.
 -/
